@@ -462,7 +462,7 @@ func C11(c *Ctx) {
 	p.W[gast.StateCode] = 5
 	p.PDisplay = 40
 	p.ActSpec = func(r *rand.Rand) mon.Spec {
-		return mon.Spec{R: pick(r, 0, 0, 1, 3), E: pick(r, 0, 0, 1, 2, 2, 3, 4, 5, 6), P: pick(r, 0, 0, 0, 0, 0, 0, 1, 2, 3)}
+		return mon.Spec{R: pick(r, 0, 0, 1, 3), E: pick(r, 0, 0, 1, 2, 2, 3, 4, 5, 6, 7), P: pick(r, 0, 0, 0, 0, 0, 0, 1, 2, 3)}
 	}
 	p.PredSpec = func(r *rand.Rand) mon.Spec {
 		return mon.Spec{B: pick(r, 0, 0, 1, 4), E: pick(r, 0, 0, 1, 2, 3), P: pick(r, 0, 0, 0, 0, 0, 0, 0, 1, 2)}
@@ -543,6 +543,12 @@ func c11Strata() []*gast.Grammar {
 		mk(r("S", gast.A(gast.Star(gast.S(gast.Ref("F"), gast.Opt(gast.L(",")))), 9, mon.Spec{})), r("F", gast.C(gast.S(gast.Ref("W"), gast.L("!")), gast.Ref("W"))),
 			r("W", gast.A(gast.Plus(gast.Cl(gast.Chars("ab"))), 1, mon.Spec{E: 6}))),
 		mk(r("S", gast.S(gast.A(gast.L("a"), 1, mon.Spec{E: 6}), gast.AndC(2, mon.Spec{E: 6}), gast.A(gast.L("b"), 3, mon.Spec{E: 6}), gast.St(4, mon.Spec{S: 1, E: 6}), gast.Star(gast.Dot())))),
+		// blocks that hand on the error of a nested Parse call of the same package as it is (included
+		// files, embedded fragments): its dynamic type is the parser's own error list, and it is still
+		// one error of one block - wrapped, prefixed with the outer position and rule, recorded once
+		mk(r("S", gast.A(gast.Star(gast.S(gast.Ref("F"), gast.Opt(gast.L(",")))), 9, mon.Spec{})), r("F", gast.C(gast.S(gast.Ref("W"), gast.L("!")), gast.Ref("W"))),
+			&gast.Rule{Name: "W", Display: "a word", Expr: gast.A(gast.Plus(gast.Cl(gast.Chars("ab"))), 1, mon.Spec{E: 7})}),
+		mk(r("S", gast.S(gast.A(gast.L("a"), 1, mon.Spec{E: 7}), gast.AndC(2, mon.Spec{E: 7}), gast.A(gast.L("b"), 3, mon.Spec{E: 7}), gast.St(4, mon.Spec{S: 1, E: 7}), gast.Star(gast.Dot())))),
 	}
 }
 
